@@ -68,7 +68,13 @@ def in_child(fn):
             out = fn()
             os.write(w, json.dumps(out).encode('utf-8'))
         finally:
-            os._exit(0)
+            # the scratch directory of this child's 'write' workloads (both threads are done by now)
+            try:
+                import shutil
+                import tempfile
+                shutil.rmtree(os.path.join(tempfile.gettempdir(), 'mxv_c20_%d' % os.getpid()), ignore_errors=True)
+            finally:
+                os._exit(0)
     os.close(w)
     chunks = []
     while True:
